@@ -225,22 +225,31 @@ class FileInfo:
         # noinspection PyProtectedMember
         prefix = self.vpk._dir_prefix
 
+        limit = self.vpk.dir_limit
         if prefix is None:
-            self.start_data = data
-            self.arch_len = 0
-            return
+            # Singular VPKs have no numeric files (and ignore the limit), whatever does
+            # not fit goes after the directory tree.
+            arch_index = limit = None
+        if limit is None or limit > 0xFFFF:
+            # No limit requested - but the preload length is stored in 16 bits.
+            limit = 0xFFFF
 
-        self.start_data = data[:self.vpk.dir_limit]
-        arch_data = data[self.vpk.dir_limit:]
+        self.start_data = data[:limit]
+        arch_data = data[limit:]
 
         self.arch_len = len(arch_data)
 
         if self.arch_len:
             self.arch_index = arch_index
-            arch_file = get_arch_filename(prefix, arch_index)
-            with open(os.path.join(self.vpk.folder, arch_file), 'ab') as file:
-                self.offset = file.seek(0, os.SEEK_END)
-                file.write(arch_data)
+            if arch_index is None:
+                # Stored after the tree in the _dir file, which write_dirfile() rewrites.
+                self.offset = len(self.vpk.footer_data)
+                self.vpk.footer_data += arch_data
+            else:
+                arch_file = get_arch_filename(prefix, arch_index)
+                with open(os.path.join(self.vpk.folder, arch_file), 'ab') as file:
+                    self.offset = file.seek(0, os.SEEK_END)
+                    file.write(arch_data)
         else:
             # Only stored in the main index
             self.arch_index = None
